@@ -32,8 +32,8 @@ RECURSIVE Batches(_, _)
 Batches(i, n) == IF n = 0 THEN {<<>>}
                  ELSE {<<>>} \cup {<<NewRec(i, sz, MinTime)>> \o rest : sz \in Sizes, rest \in Batches(i + 1, n - 1)}
 
-\* the flush decision of the appending step: the design flushes exactly when a limit is reached
-AppendDue == LET r == wcur[1] IN MustFlush(blen + Size(r), IF firstTime = 0 THEN r.time ELSE firstTime, r)
+\* the flush decision: the design flushes exactly when a limit is reached
+AppendDue == LET r == live[Len(live)] IN MustFlush(blen, IF firstTime = 0 THEN r.time ELSE firstTime, r)
 Fl == IF EarlyFlush THEN BOOLEAN ELSE {AppendDue}
 
 MCStep ==
@@ -42,8 +42,8 @@ MCStep ==
         NextId <= NRec /\ (Add(NewRec(NextId, sz, t)) \/ AppendCall(NewRec(NextId, sz, t)))
   \/ \E rs \in Batches(NextId, MaxDirect) : MaxDirect > 0 /\ drid = 0 /\ NextId + Len(rs) <= NRec + 1 /\ DirectBegin(rs)
   \/ \E saw \in BOOLEAN : WTop(saw, stopped)
-  \/ WTake \/ WIdle \/ WReset \/ WExit
-  \/ wpc = "app" /\ \E fl \in Fl : WAppend(fl)
+  \/ WTake \/ WIdle \/ WAppend \/ WReset \/ WExit
+  \/ wpc = "dec" /\ \E fl \in Fl : WDecide(fl)
   \/ \E k \in Keeps : WSend(k) \/ DSend(k)
   \/ DirectEnd
   \/ StopCall \/ StopRet
